@@ -99,6 +99,22 @@ pub(crate) fn sp(label: &'static str) {
     }
 }
 
+static FINE: std::sync::atomic::AtomicBool = std::sync::atomic::AtomicBool::new(false);
+
+/// Switches the fine-grained points on or off (`sp_fine`: the loads of the flags and
+/// weights in an entry's shared info that other threads write). Off by default.
+pub fn set_fine(on: bool) {
+    FINE.store(on, Ordering::SeqCst);
+}
+
+/// A switch point that is reported only while `set_fine(true)` is in force.
+#[inline]
+pub(crate) fn sp_fine(label: &'static str) {
+    if FINE.load(Ordering::Relaxed) {
+        sp(label);
+    }
+}
+
 #[inline]
 pub(crate) fn block_until(label: &'static str, probe: &dyn Fn() -> bool) {
     if let Some(s) = current() {
@@ -469,6 +485,38 @@ impl SketchFacade {
 /// The sketch capacity a cache derives from its max capacity.
 pub fn sketch_capacity(max_capacity: u64) -> u32 {
     crate::common::sketch_capacity(max_capacity)
+}
+
+// ---------------------------------------------------------------------------
+// Wrapper around the mutex that serialises maintenance passes: `lock()` is a blocking
+// point (runnable only while the mutex is free), `try_lock()` a switch point followed
+// by the real attempt - which fails while another thread is parked inside a pass.
+// The acquisition is a scheduling event wherever in the crate it is written.
+// ---------------------------------------------------------------------------
+
+#[cfg(feature = "sync")]
+pub(crate) struct VerifMutex<T>(std::sync::Mutex<T>);
+
+#[cfg(feature = "sync")]
+impl<T> VerifMutex<T> {
+    pub(crate) fn new(v: T) -> Self {
+        Self(std::sync::Mutex::new(v))
+    }
+
+    #[inline]
+    pub(crate) fn lock(&self) -> std::sync::LockResult<std::sync::MutexGuard<'_, T>> {
+        block_until("sync.lock", &|| {
+            !matches!(self.0.try_lock(), Err(std::sync::TryLockError::WouldBlock))
+        });
+        self.0.lock()
+    }
+
+    #[allow(dead_code)]
+    #[inline]
+    pub(crate) fn try_lock(&self) -> std::sync::TryLockResult<std::sync::MutexGuard<'_, T>> {
+        sp("sync.trylock");
+        self.0.try_lock()
+    }
 }
 
 // ---------------------------------------------------------------------------
